@@ -214,63 +214,82 @@ def run_harness(ctx, cases, tag="run", binary=None, deadline=None, workers=None)
 
 def tlc_validate(ctx, module, trace_file, tag="val", shards=None):
     """Direction V: run the trace specification over the recorded cases.
-    Returns {case id: [reasons]} for every case the specification rejects."""
-    with open(trace_file) as f:
-        lines = f.readlines()
-    n = len(lines)
+    Returns {case id: [reasons]} for every case the specification rejects.
+    The trace is streamed into shards (round robin, so that expensive neighbourhoods spread out); TLC deserialises a
+    shard as a whole, so the size of one shard is bounded and the shards go through a pool of JVMs."""
+    n = 0
+    with open(trace_file, "rb") as f:
+        for _ in f:
+            n += 1
     if n == 0:
         return {}, 0
+    size = os.path.getsize(trace_file)
+    pool = max(1, NCPU // 2)
     if shards is None:
-        shards = max(1, min(NCPU // 2, n // 6000))
+        shards = max(1, min(pool, n // 6000))
+        shards = max(shards, -(-size // (128 << 20)), -(-n // 100000))
+        if shards > pool:
+            shards = -(-shards // pool) * pool
     wd = ctx.sub(tag)
-    procs = []
     t = time.time()
+    dirs, counts, files = [], [0] * shards, []
     for s in range(shards):
         sd = os.path.join(wd, "s%d" % s)
         os.makedirs(sd)
-        part = lines[s::shards]
-        tf = os.path.join(sd, "trace.ndjson")
-        with open(tf, "w") as f:
-            f.writelines(part)
+        dirs.append(sd)
+        files.append(open(os.path.join(sd, "trace.ndjson"), "wb"))
         for fn in os.listdir(SPEC):
             if fn.endswith(".tla"):
                 shutil.copyfile(os.path.join(SPEC, fn), os.path.join(sd, fn))
         with open(os.path.join(sd, module + ".cfg"), "w") as f:
             f.write("SPECIFICATION Spec\nINVARIANT Done\nCHECK_DEADLOCK FALSE\n")
+    with open(trace_file, "rb") as f:
+        for i, line in enumerate(f):
+            files[i % shards].write(line)
+            counts[i % shards] += 1
+    for f in files:
+        f.close()
+
+    def one(s):
+        sd = dirs[s]
+        tf = os.path.join(sd, "trace.ndjson")
         e = dict(os.environ, TRACE_FILE=tf)
-        heap = "3g" if shards > 8 else "6g"
-        cmd = _tlc_cmd(heap) + ["-workers", "1", "-metadir", os.path.join(sd, "md"), "-noGenerateSpecTE", module + ".tla"]
-        of = open(os.path.join(sd, "out.txt"), "w")
-        procs.append((subprocess.Popen(cmd, cwd=sd, env=e, stdout=of, stderr=subprocess.STDOUT), of, sd, len(part)))
+        cmd = _tlc_cmd("5g") + ["-workers", "1", "-metadir", os.path.join(sd, "md"), "-noGenerateSpecTE", module + ".tla"]
+        with open(os.path.join(sd, "out.txt"), "w") as of:
+            try:
+                subprocess.run(cmd, cwd=sd, env=e, stdout=of, stderr=subprocess.STDOUT, timeout=7200)
+            except subprocess.TimeoutExpired:
+                return s, None
+        os.remove(tf)
+        return s, open(os.path.join(sd, "out.txt")).read()
+
     failed = {}
     consumed = 0
-    for p, of, sd, cnt in procs:
-        try:
-            p.wait(timeout=7200)
-        except subprocess.TimeoutExpired:
-            p.kill()
-            raise Infra("trace validation timed out")
-        of.close()
-        out = open(os.path.join(sd, "out.txt")).read()
-        m = None
-        for m in _STATS.finditer(out):
-            pass
-        if m is None or "Model checking completed. No error has been found." not in out:
-            tail = "\n".join(l for l in out.splitlines() if not l.startswith('"'))[-3000:]
-            raise Infra("trace validation failed in %s:\n%s" % (sd, tail))
-        ctx.states += int(m.group(2))
-        ctx.transitions += int(m.group(1))
-        done = None
-        for row in printed_json(out):
-            if "consumed" in row:
-                done = row
-            else:
-                failed.setdefault(row["id"], []).extend(row["why"])
-        if done is None or done["consumed"] != cnt:
-            raise Infra("trace shard %s not fully consumed (%s of %d)" % (sd, done, cnt))
-        consumed += cnt
+    import concurrent.futures
+    with concurrent.futures.ThreadPoolExecutor(max_workers=pool) as ex:
+        for s, out in ex.map(one, range(shards)):
+            sd, cnt = dirs[s], counts[s]
+            if out is None:
+                raise Infra("trace validation timed out")
+            m = None
+            for m in _STATS.finditer(out):
+                pass
+            if m is None or "Model checking completed. No error has been found." not in out:
+                tail = "\n".join(l for l in out.splitlines() if not l.startswith('"'))[-3000:]
+                raise Infra("trace validation failed in %s:\n%s" % (sd, tail))
+            ctx.states += int(m.group(2))
+            ctx.transitions += int(m.group(1))
+            done = None
+            for row in printed_json(out):
+                if "consumed" in row:
+                    done = row
+                else:
+                    failed.setdefault(row["id"], []).extend(row["why"])
+            if done is None or done["consumed"] != cnt:
+                raise Infra("trace shard %s not fully consumed (%s of %d)" % (sd, done, cnt))
+            consumed += cnt
     shutil.rmtree(wd, ignore_errors=True)
-    log("V %s: %d cases validated, %d rejected, %.1fs" % (module, consumed, len(failed), time.time() - t))
+    log("V %s: %d cases validated in %d shards, %d rejected, %.1fs" % (module, consumed, shards, len(failed), time.time() - t))
     return failed, consumed
 
 
